@@ -86,7 +86,7 @@ func main() {
 			if rw.usedHooks {
 				astutil.AddNamedImport(p.Fset, f, "simhooks", *hooksPath)
 			}
-			for _, imp := range []string{"io/ioutil", "github.com/bmeg/grip/kvi/badgerdb", "github.com/segmentio/ksuid"} {
+			for _, imp := range []string{"io/ioutil", "github.com/bmeg/grip/kvi/badgerdb", "github.com/segmentio/ksuid", "sync"} {
 				if !astutil.UsesImport(f, imp) {
 					astutil.DeleteImport(p.Fset, f, imp)
 				}
@@ -355,6 +355,15 @@ func (r *rewriter) file_(f *ast.File) bool {
 	// expression-level rewrites first (they do not add statements)
 	astutil.Apply(f, func(c *astutil.Cursor) bool {
 		switch x := c.Node().(type) {
+		case *ast.SelectorExpr:
+			// seam: sync.Pool (per-P caches, emptied by the collector: which Get
+			// meets which Put is not decided by the code) becomes a LIFO pool
+			if tn, ok := r.info.Uses[x.Sel].(*types.TypeName); ok && tn.Pkg() != nil && tn.Pkg().Path() == "sync" && tn.Name() == "Pool" {
+				c.Replace(&ast.SelectorExpr{X: ast.NewIdent("simrt"), Sel: ast.NewIdent("Pool")})
+				r.usedSim = true
+				changed = true
+				return false
+			}
 		case *ast.CallExpr:
 			// make(chan T, K)
 			if id, ok := x.Fun.(*ast.Ident); ok && id.Name == "make" && len(x.Args) == 2 && r.isChanTypeExpr(x.Args[0]) {
